@@ -10,16 +10,19 @@ package fuzzfam
 // and after scalibr.New().Scan. (The image part of C06 lives in ../jailfam.)
 
 import (
+	"bytes"
 	"context"
 	"encoding/json"
 	"fmt"
 	"os"
+	"os/exec"
 	"path"
 	"path/filepath"
 	"runtime/debug"
 	"sort"
 	"strings"
 	"testing"
+	"time"
 
 	scalibr "github.com/google/osv-scalibr"
 	"github.com/google/osv-scalibr/extractor/filesystem"
@@ -257,57 +260,23 @@ func propC06Scan(c c06ScanCase) (o ev.Outcome, err error) {
 		return o, fmt.Errorf("harness: %w", err)
 	}
 
-	// the scan runs with cwd = S/cwd and TMPDIR = S/tmp
-	oldwd, err := os.Getwd()
-	if err != nil {
-		return o, fmt.Errorf("harness: %w", err)
-	}
-	oldtmp, hadtmp := os.LookupEnv("TMPDIR")
-	if err := os.Chdir(cwd); err != nil {
-		return o, fmt.Errorf("harness: %w", err)
-	}
-	os.Setenv("TMPDIR", tmp)
-	restore := func() {
-		_ = os.Chdir(oldwd)
-		if hadtmp {
-			os.Setenv("TMPDIR", oldtmp)
-		} else {
-			os.Unsetenv("TMPDIR")
-		}
-	}
-	var roots []*scalibrfs.ScanRoot
-	if c.Virtual {
-		roots = []*scalibrfs.ScanRoot{{FS: scalibrfs.DirFS(tree), Path: ""}}
-	} else {
-		roots = scalibrfs.RealFSScanRoots(tree)
-	}
-	panicked := ""
-	var res *scalibr.ScanResult
-	func() {
-		defer func() {
-			if p := recover(); p != nil {
-				panicked = fmt.Sprintf("%v\n%s", p, ev.TrimStack(debug.Stack()))
-			}
-		}()
-		res = scalibr.New().Scan(context.Background(), &scalibr.ScanConfig{
-			FilesystemExtractors: allOfflineExtractors(caps),
-			Capabilities:         caps,
-			ScanRoots:            roots,
-		})
-	}()
-	restore()
-	if panicked != "" {
-		// a crashing extractor is C02's subject; the side effects up to the crash still count here
-		o.Classes = append(o.Classes, "scan_panicked")
-	} else if res != nil {
-		o.Classes = append(o.Classes, "scan_status:"+statusName(res.Status.Status))
-	}
+	// the scan runs in a child process with cwd = S/cwd and TMPDIR = S/tmp: a crashing or hanging
+	// extractor (C02's subject) then cannot take this process down
+	st := runScanChild(scanChildSpec{Tree: tree, Cwd: cwd, Tmp: tmp, OS: c.OS, Running: c.Running, DirectFS: c.DirectFS, Virtual: c.Virtual})
+	o.Classes = append(o.Classes, "scan:"+st)
+	ignoreTmp := st == "died" || st == "timeout"
 
 	after, err := sandbox.Take(S, skip)
 	if err != nil {
 		return o, fmt.Errorf("harness: %w", err)
 	}
-	if d := sandbox.Diff(before, after, nil); len(d) > 0 {
+	var ign func(string) bool
+	if ignoreTmp {
+		// the scan never returned: what it had in the temporary directory at that moment is not
+		// a verdict of this property
+		ign = func(p string) bool { return sandbox.Under(p, "tmp") }
+	}
+	if d := sandbox.Diff(before, after, ign); len(d) > 0 {
 		var where []string
 		for _, l := range d {
 			f := strings.Fields(l)
@@ -331,6 +300,85 @@ func propC06Scan(c c06ScanCase) (o ev.Outcome, err error) {
 		return o, fmt.Errorf("scan (os=%d virtual=%v running=%v) has file-system side effects in the %s:\n  %s", c.OS, c.Virtual, c.Running, strings.Join(where, ", "), strings.Join(d, "\n  "))
 	}
 	return o, nil
+}
+
+type scanChildSpec struct {
+	Tree, Cwd, Tmp string
+	OS             int
+	Running        bool
+	DirectFS       bool
+	Virtual        bool
+}
+
+// runScanChild performs the scan in a child process and returns "ok:<scan status>", "panicked",
+// "died" or "timeout".
+func runScanChild(spec scanChildSpec) string {
+	b, _ := json.Marshal(spec)
+	cmd := exec.Command(os.Args[0], "-test.run", "^TestC06_scanchild$", "-test.count", "1", "-test.timeout", "0")
+	cmd.Env = append(os.Environ(), "C06_SCANCHILD="+string(b), "VERIF_STATS_OUT=", "VERIF_REPLAY=", "TMPDIR="+spec.Tmp)
+	cmd.Dir = spec.Cwd
+	var buf bytes.Buffer
+	cmd.Stdout, cmd.Stderr = &buf, &buf
+	if err := cmd.Start(); err != nil {
+		return "died"
+	}
+	done := make(chan error, 1)
+	go func() { done <- cmd.Wait() }()
+	select {
+	case <-done:
+	case <-time.After(120 * time.Second):
+		_ = cmd.Process.Kill()
+		<-done
+		return "timeout"
+	}
+	out := buf.String()
+	if i := strings.LastIndex(out, "SCANCHILD "); i >= 0 {
+		line := out[i+len("SCANCHILD "):]
+		if j := strings.IndexByte(line, '\n'); j >= 0 {
+			line = line[:j]
+		}
+		return line
+	}
+	return "died"
+}
+
+// TestC06_scanchild is the child side of runScanChild.
+func TestC06_scanchild(t *testing.T) {
+	js := os.Getenv("C06_SCANCHILD")
+	if js == "" {
+		t.Skip("only used as a child process")
+	}
+	var spec scanChildSpec
+	if err := json.Unmarshal([]byte(js), &spec); err != nil {
+		t.Fatal(err)
+	}
+	rpmShortTimeout.Store(true) // C06 is about side effects; see registry.go
+	if err := os.Chdir(spec.Cwd); err != nil {
+		t.Fatal(err)
+	}
+	os.Setenv("TMPDIR", spec.Tmp)
+	caps := &plugin.Capabilities{OS: plugin.OS(spec.OS), Network: plugin.NetworkOffline, DirectFS: spec.DirectFS, RunningSystem: spec.Running}
+	var roots []*scalibrfs.ScanRoot
+	if spec.Virtual {
+		roots = []*scalibrfs.ScanRoot{{FS: scalibrfs.DirFS(spec.Tree), Path: ""}}
+	} else {
+		roots = scalibrfs.RealFSScanRoots(spec.Tree)
+	}
+	status := "panicked"
+	func() {
+		defer func() {
+			if p := recover(); p != nil {
+				fmt.Printf("scan panicked: %v\n%s\n", p, ev.TrimStack(debug.Stack()))
+			}
+		}()
+		res := scalibr.New().Scan(context.Background(), &scalibr.ScanConfig{
+			FilesystemExtractors: allOfflineExtractors(caps),
+			Capabilities:         caps,
+			ScanRoots:            roots,
+		})
+		status = "ok:" + statusName(res.Status.Status)
+	}()
+	fmt.Printf("SCANCHILD %s\n", status)
 }
 
 func uniq(s []string) []string {
